@@ -14,7 +14,7 @@ pub static PROP: PropDef = PropDef {
     builds: |_| vec![Build::RayonOpt, Build::RayonDbg],
     max_tape: 64,
     cases: |t| match t {
-        Tier::Quick => 3_000,
+        Tier::Quick => 5_000,
         Tier::Thorough => 100_000,
     },
     fixed: no_fixed,
